@@ -2,12 +2,13 @@
   Model driver for C18.  Ops:
     wind T MT MHBITS LL N (kind arg)*N M (vbits hbits)*M
         -> ok <statuses> <terrain> <metTerrain> <logLaw> <7 float bits> <powDen> <logDen> | <results>
-    tm <Class> (g<i> | s<i>)*     -> verdict per read (ok | stale | alias:<expr> | none | unset)
+    tm <Class> (g<i> | s<i> | x<i>)*   (x: a REFUSED call of setter i)     -> verdict per read (ok | stale | alias:<expr> | none | unset)
     check <Class>                 -> the five table checks
   Imports only Mathlib-free files.
 -/
 import Ladybug.DrvCore
 import Ladybug.Model.Lazy
+import Ladybug.Model.LazyHist
 import Ladybug.Model.WindProfile
 import Ladybug.Gen.LazyDeps
 
@@ -89,9 +90,10 @@ def wind (toks : List String) : String :=
 
 def findTable (name : String) : Option Lazy.ClassTable := Gen.LazyDeps.all.find? (·.name == name)
 
-def parseTOp (s : String) : Option Lazy.TOp :=
-  if s.startsWith "g" then Lazy.TOp.get <$> (s.drop 1).toNat?
-  else if s.startsWith "s" then Lazy.TOp.put <$> (s.drop 1).toNat?
+def parseTOp (s : String) : Option Lazy.XOp :=
+  if s.startsWith "g" then Lazy.XOp.get <$> (s.drop 1).toNat?
+  else if s.startsWith "s" then Lazy.XOp.put <$> (s.drop 1).toNat?
+  else if s.startsWith "x" then Lazy.XOp.refuse <$> (s.drop 1).toNat?
   else none
 
 def showVerdict : Lazy.Verdict → String
@@ -102,7 +104,7 @@ def handle (toks : List String) : String :=
   | "wind" :: rest => wind rest
   | "tm" :: cls :: ops =>
     match findTable cls, ops.mapM parseTOp with
-    | some t, some ops => joinSp ((Lazy.runT t Lazy.TState.empty ops).map showVerdict)
+    | some t, some ops => joinSp ((Lazy.runX t Lazy.TState.empty ops).map showVerdict)
     | _, _ => "bad-op"
   | ["check", cls] =>
     match findTable cls with
